@@ -15,7 +15,7 @@ P("C15",
              "pre-fix code. The model (two-phase Tick with swap removal, occupancy passes) is compared round by round with "
              "queueing.Pipeline (accept flags, pushes, moved flag, Stages() snapshot). holds_on evaluates lane exclusivity, per-round "
              "conservation, latency (lower bound always, exact under ready rounds), progress from every observed snapshot and FIFO on the "
-             "implementation's observations; the link theorem is proved for the lane and FIFO clauses (c15_model_agreement_implies_property_partial).",
+             "implementation's observations; c15_model_agreement_implies_property proves that agreement with the model implies the whole predicate (delays >= 0); c15_never_early is the latency lower bound for any sink.",
   level_note="Trusted: Coq kernel + vm_compute; the Go harness (scripted sink); the hand-written model of pipeline.go. "
              "Accept without a free lane is outside the API contract and not modelled; JSON restore of hand-made states is out of scope.",
   quick_shards=8,
